@@ -7,6 +7,7 @@ from typing import Dict, List, Iterable, Tuple, Deque
 
 from conductor.context import Context
 from conductor.errors import ConductorError, ConductorAbort
+from conductor.errors.signal import raise_if_abort_requested
 from conductor.execution.handle import OperationExecutionHandle
 from conductor.execution.ops.operation import Operation
 from conductor.execution.plan import ExecutionPlan
@@ -144,6 +145,7 @@ class Executor:
             self._ready_to_run.load(plan.initial_ops)
             with SigchldHelper.instance().track():
                 while self._ready_to_run.has_ops() or len(self._inflight_ops) > 0:
+                    raise_if_abort_requested()
                     should_stop = self._launch_ops_if_able(ctx, stop_on_first_error)
                     if should_stop:
                         break
@@ -158,6 +160,8 @@ class Executor:
                     )
                     if should_stop:
                         break
+
+                raise_if_abort_requested()
 
             # Only has an effect if we exited the loop above early due to
             # encountering an error.
